@@ -296,7 +296,7 @@ DataViol(c) ==
     \cup (IF c.id = 0 \/ ~known THEN {V("C01_UnknownPayloadOnWire", <<e, c.tsn, c.sid, c.len>>)} ELSE {})
     \cup (IF known /\ ~m.ok THEN {V("C18_FailedWriteOnWire", <<e, c.tsn, c.id>>)} ELSE {})
     \cup (IF known /\ (m.ep # e \/ m.sid # c.sid) THEN {V("C01_WrongStream", <<e, c.tsn, c.id, c.sid>>)} ELSE {})
-    \cup (IF known /\ c.b /\ c.ppi # m.ppi THEN {V("C12_Ppi", <<e, c.tsn, c.id, c.ppi>>)} ELSE {})
+    \cup (IF known /\ (c.b \/ ~c.il) /\ c.ppi # m.ppi THEN {V("C12_Ppi", <<e, c.tsn, c.id, c.ppi>>)} ELSE {})
     \cup (IF known /\ c.u # m.unord THEN {V("C06_OrderingFlag", <<e, c.tsn, c.id, c.u>>)} ELSE {})
     \cup (IF c.ppi = 50 /\ c.u THEN {V("C06_DcepOrdered", <<e, c.tsn, c.id>>)} ELSE {})
     \cup (IF c.b # (c.fi = 0) THEN {V("C01_FragFlags", <<e, c.tsn, c.id, c.fi>>)} ELSE {})
@@ -474,8 +474,12 @@ TrChunkHb ==
 TrChunkOther ==
   /\ IsEv("c") /\ (pkt[E.pid].forged \/ "bad" \in DOMAIN E \/ E.k \notin (DataKinds \cup {"sack", "fwd", "ifwd", "shutdown", "reconfig", "hb", "hback"}))
   /\ pkt' = [pkt EXCEPT ![E.pid].chunks = Append(@, E)]
+  \* C04: an endpoint that was established at its last quiescent point does not (re)transmit INIT / COOKIE-ECHO:
+  \* the T1 timers were stopped when the handshake completed, by whichever packet completed it
+  /\ viol' = viol \cup (IF ~pkt[E.pid].forged /\ E.k \in {"init", "cookieecho"} /\ sn[E.ep] # NoSnap /\ sn[E.ep].st = "established"
+                        THEN {V("C04_NoHandshakeChunkWhenEstablished", <<E.ep, E.k, E.t>>)} ELSE {})
   /\ l' = l + 1
-  /\ UNCHANGED <<scen, cfg, msg, order, reads, ch, hi, rcvd, skipTo, ackCum, ackGap, arw, outst, lastSack, sackEv, sn, step, newData, misc, rs, acc, viol>>
+  /\ UNCHANGED <<scen, cfg, msg, order, reads, ch, hi, rcvd, skipTo, ackCum, ackGap, arw, outst, lastSack, sackEv, sn, step, newData, misc, rs, acc>>
 
 (***************************************************************************)
 (* Driver: a packet is handed to its destination                           *)
